@@ -9,9 +9,13 @@
 // except according to those terms.
 
 use cadence::StatsdClient;
+#[cfg(cadence_verif)]
+use crate::verif_shim::{AtomicUsize, Ordering, UnsafeCell};
+#[cfg(not(cadence_verif))]
 use std::cell::UnsafeCell;
 use std::error::Error;
 use std::fmt::{self, Display, Formatter};
+#[cfg(not(cadence_verif))]
 use std::sync::atomic::{AtomicUsize, Ordering};
 use std::sync::Arc;
 
